@@ -22,6 +22,9 @@ C15 driver.  One request = one pipeline run:
            `add.<pre>` / `ins.<pre>` / `rem.<pre>` add_to_graph / insert_all / remove_all on a store
            already holding `pre`; `small.<free>.<pre>` insert_all into a 16-bit-index graph with `free`
            free slots; `ser.<limit>.<e>` NT/NQ serializer over a writer failing after `limit` bytes
+           `gad.<pre>` / `gadd.<pre>` / `gade.<pre>` insert_all / add_to_dataset / element-wise insert_quad on
+           `graph.as_dataset_mut()` / `into_dataset()` (a quad in a named graph is a sink fault OnlyDefaultGraph);
+           `dsg.<g>.<pre>` / `dsgr.<g>.<pre>` insert_all / remove_all on `dataset.graph_mut(g)`;
            `hs` / `bs` collect into HashSet / BTreeSet; `addh.<pre>` add_to_graph on a HashSet, `remb.<pre>`
            remove_all on a BTreeSet; `rio.<ttl|trig|xml>.<limit>.<e>.<-|H|F|c<j>>` streaming Turtle / TriG /
            RDF-XML serializer over a writer failing after `limit` bytes: the third-party formatter fails
@@ -156,6 +159,9 @@ inductive Consumer where
   | small (free : Nat) (pre : List Item)
   | ser (limit : Nat) (payload : String)
   | insertFast (pre : List Item)   -- insert_all on a Fast (multi-index) store
+  | gad (pre : List Item)          -- insert_all / add_to_dataset / element-wise insert on graph.as_dataset_mut()
+  | dsg (gn : Nat) (pre : List Item)     -- insert_all on dataset.graph_mut(g)
+  | dsgRem (gn : Nat) (pre : List Item)  -- remove_all on dataset.graph_mut(g)
   | set                              -- collect into HashSet / BTreeSet
   | rio (plan : FmtPlan) (payload : String)
 
@@ -183,8 +189,11 @@ def parseConsumer (cs : List Char) : Option Consumer :=
     | _ => none
   | ['s' :: 'm' :: 'a' :: 'l' :: 'l' :: [], f, pre] => do some (.small (← natOf f) (← parseItemsDots pre))
   | ['s' :: 'e' :: 'r' :: [], l, e] => (natOf l).map fun l => .ser l (writerPayload (String.ofList e))
+  | ['d' :: 's' :: 'g' :: [], g, pre] => do some (.dsg (← natOf g) (← parseItemsDots pre))
+  | ['d' :: 's' :: 'g' :: 'r' :: [], g, pre] => do some (.dsgRem (← natOf g) (← parseItemsDots pre))
   | [w, pre] =>
-    if w == "ins".toList then (parseItemsDots pre).map .insertFast
+    if w == "gad".toList || w == "gadd".toList || w == "gade".toList then (parseItemsDots pre).map .gad
+    else if w == "ins".toList then (parseItemsDots pre).map .insertFast
     else if w == "add".toList || w == "addh".toList then (parseItemsDots pre).map .insert
     else if w == "rem".toList || w == "remb".toList then (parseItemsDots pre).map .remove
     else none
@@ -258,6 +267,13 @@ def storeErr {α : Type} : Option (StreamResult α String StoreError) → Option
   | some (.error (.source e)) => some (.error (.source e))
   | some (.error (.sink .indexFull)) => some (.error (.sink "index-full"))
 
+def gadErr {α : Type} : Option (StreamResult α String GadError) → Option (StreamResult Unit String String)
+  | none => none
+  | some (.ok _) => some (.ok ())
+  | some (.error (.source e)) => some (.error (.source e))
+  | some (.error (.sink .onlyDefaultGraph)) => some (.error (.sink "only-default-graph"))
+  | some (.error (.sink (.graph _))) => some (.error (.sink "index-full"))
+
 def okVal {ε εk : Type} : Option (StreamResult Nat ε εk) → Option Nat
   | some (.ok n) => some n
   | _ => none
@@ -307,6 +323,18 @@ def runConsumer {σ : Type} (S : Source σ Item String) (s : σ) (used : σ → 
     | (s', log, g, r) =>
       { log := log, ret := storeErr r, val := okVal r, final := renderItems (sortItems g.spo), pulled := used s',
         idx := some g.coherentB }
+  | .gad pre =>
+    match insertAllGad S s (mkStore none pre) with
+    | (s', log, g, r) =>
+      { log := log, ret := gadErr r, val := okVal r, final := renderItems (sortItems g.present), pulled := used s' }
+  | .dsg gn pre =>
+    match insertAllDsg gn S s (mkStore none pre) with
+    | (s', log, g, r) =>
+      { log := log, ret := storeErr r, val := okVal r, final := renderItems (sortItems g.present), pulled := used s' }
+  | .dsgRem gn pre =>
+    match removeAllDsg gn S s (mkStore none pre) with
+    | (s', log, g, r) =>
+      { log := log, ret := storeErr r, val := okVal r, final := renderItems (sortItems g.present), pulled := used s' }
   | .remove pre =>
     match removeAll S s (mkStore none pre) with
     | (s', log, g, r) =>
